@@ -13,6 +13,8 @@ import (
 	"strings"
 	"sync"
 	"unsafe"
+
+	"github.com/lesismal/nbio/logging"
 )
 
 type verifInputRec struct {
@@ -191,6 +193,24 @@ func verifEqBytes(a, b []byte) bool {
 }
 
 var verifNativePanics int
+
+// natively a panic recovered inside the library is observed through the error
+// log line its recover block writes ("... failed: <panic>")
+type verifLogCounter struct{}
+
+func (verifLogCounter) SetLevel(lvl int)                        {}
+func (verifLogCounter) Debug(format string, v ...interface{})   {}
+func (verifLogCounter) Info(format string, v ...interface{})    {}
+func (verifLogCounter) Warn(format string, v ...interface{})    {}
+func (verifLogCounter) Error(format string, v ...interface{}) {
+	if strings.Contains(format, "failed") {
+		verifMu.Lock()
+		verifNativePanics++
+		verifMu.Unlock()
+	}
+}
+
+func init() { logging.SetLogger(verifLogCounter{}) }
 
 func verifBufKey(b []byte) uintptr {
 	if cap(b) == 0 {
